@@ -257,6 +257,9 @@ def collect(ctx):
                 traces.append(trace)
             if rc == 0 and any(r.get("kind") == "summary" for r in rs):
                 return records, deaths
+            if any(r.get("kind") == "violation" and r.get("class") == "timer-goroutine-wedged" for r in rs):
+                # the child stopped itself after showing (goroutine stack) that the timer goroutine is stuck for good
+                return records, deaths
             stages = [r for r in rs if r.get("kind") == "stage"]
             stage = stages[-1] if stages else None
             kind = _panic_kind(o)
